@@ -40,7 +40,7 @@ def interp_for(profile, params=None):
     return I
 
 class JobResult(dict):
-    COUNTERS = ('paths', 'decisions', 'obligations', 'discharged', 'solver_s', 'queries', 'bound_hits', 'infeasible', 'steps')
+    COUNTERS = ('paths', 'decisions', 'obligations', 'discharged', 'solver_s', 'queries', 'bound_hits', 'infeasible', 'steps', 'retried_unknown')
     def __init__(self):
         dict.__init__(self)
         for k in self.COUNTERS: self[k] = 0
@@ -71,6 +71,15 @@ class JobResult(dict):
             r, m = I.model_for(None)
         else:
             r, m = I.model_for(negated)
+        if r == z3.unknown and not mirsym.is_conc(negated):
+            # one retry on a fresh solver with six times the time (a loaded machine turns honest queries into time-outs)
+            try:
+                t0 = time.time()
+                s2 = z3.Solver(); s2.set('timeout', 6 * int(I.params.get('query_timeout_ms', 10000))); s2.set('random_seed', 7)
+                s2.add(I.solver.assertions()); s2.add(negated)
+                r = s2.check(); m = s2.model() if r == z3.sat else None
+                I.tot['solver_s'] += time.time() - t0; self['retried_unknown'] = self.get('retried_unknown', 0) + 1
+            except Exception: r = z3.unknown
         if r == z3.unsat:
             self['discharged'] += 1
             if not self.get('_cvc5_done') and not mirsym.is_conc(negated): self.cross_check(I, negated, what)
